@@ -39,14 +39,18 @@ contract(MD, "Dataset.create", props=["C08", "C20", "C06"],
     params={"path": "U", "metadata": "ref:Metadata", "dataset_structure": "ref:DatasetStructure"},
     # base case of the session induction: whatever list documents already lie under the
     # directory are valid (vacuous for a new directory); kept by creation
-    requires=["DISK_OK(path)"],
+    requires=["DISK_OK(path)",
+              # (ghost) the certified part of the tree under this directory is exact - vacuous for a new directory,
+              # where nothing is certified; galgs() names the digest algorithms the invariant is stated for
+              "GINV(path)", "dataset_structure.hash_checksum_algorithms == galgs()"],
     returns="ref:Dataset", modifies=["DatasetBase.path", "DatasetBase._dataset_info", "DatasetInfo.metadata",
                                      "DatasetInfo.dataset_structure", "DatasetInfo.splits", "ghost:fs", "ghost:cert"],
     ensures=[
         "fresh(result) and result.path == path",
         ("C08", "old(dstate(PJOIN(path, 'dataset_info.json'))) != 2"),     # only where no dataset exists
         ("C20", "result._dataset_info.metadata is metadata and result._dataset_info.dataset_structure is dataset_structure"),
-        (["C04", "C20"], "DISK_OK(path) and dstate(PJOIN(path, 'dataset_info.json')) == 2"),
+        (["C04", "C20"], "reveal R_DISK: DISK_OK(path) and dstate(PJOIN(path, 'dataset_info.json')) == 2"),
+        ("C04", "reveal R_GINV: GINV(path)"), ("C04", "DS_WF(result)"),
     ],
     raises={
         # C08: refused when a dataset already exists, and then NOTHING on disk was touched
